@@ -652,11 +652,15 @@ def evidence(chk, ref, det, state, wall, t_batches, new, kn):
             "evaluations": st.get("calls_judged", 0),
             "distinct_nontrivial": len(a["nontrivial"]),
             "rule": "one case = one history (seeded step list over the public API: calls, caller-side mutations of "
-                    "returned objects, drops, armed read faults, armed asynchronous exceptions). Distinct = distinct "
-                    "step-list digest. Non-trivial = the history contains an adversarial event that took effect (a "
-                    "mutation that changed a canonical value, or a fault that fired) FOLLOWED BY a judged call on the "
-                    "affected cache key, or - for plain histories - a judged cold AND a judged warm call on the same "
-                    "cache key. 'evaluations' counts judged calls (result compared with the fresh-interpreter value).",
+                    "returned objects and of the caller's own argument objects, drops, armed read faults, armed asynchronous "
+                    "exceptions, simulated time passing). Distinct = distinct step-list digest. Non-trivial = the history "
+                    "contains an adversarial event that took effect (a mutation that changed a canonical value, or a fault "
+                    "that fired) FOLLOWED BY a judged call that depends on it (same cache key, or the same call whose result "
+                    "was disturbed, or a call receiving the disturbed object), or - for plain histories - a judged cold AND a "
+                    "judged warm call on the same cache key. 'evaluations' counts judged calls: result (value or exception "
+                    "type+message) compared with the fresh-interpreter value for the argument values at call time (I1); on "
+                    "every call, judged or not, every argument is compared before/after (I2) and every other live object is "
+                    "checked for having changed behind the caller's back (I4).",
             "samples": samples,
             "states": len(a["states"]), "transitions": len(a["transitions"]),
             "state_measure": "abstract state = (set of table files loaded so far, set of cache keys disturbed since "
